@@ -91,7 +91,7 @@ func normPath(p string) string {
 
 func FuzzC16StrictYAML(f *testing.F) {
 	exact, freeform := knownPathPrefixes()
-	seeds, _ := filepath.Glob("/repo/testdata/*.yaml")
+	seeds, _ := filepath.Glob(filepath.Join(repoDir(), "testdata/*.yaml"))
 	for _, s := range seeds {
 		if b, err := os.ReadFile(s); err == nil {
 			f.Add(b)
